@@ -125,7 +125,14 @@ O_OPEN_UNMASKED = ob("O6.4a", PF + "procfs_open_unmasked", "ProcfsHandle::open (
 O_OPEN_OKPATH = ob("O6.4b", PF + "procfs_open_okpath", "ProcfsHandle::open, every kernel step succeeds, mount ids / fs types / flag word / sub-path symbolic: returned only if statx mount id == handle's AND f_type == procfs on that descriptor, else EXDEV; sub-path lookup forced O_NOFOLLOW", stubs=OPEN_STUBS, covers_may_be_unsat=["ENOENT reported", "retried once"], cost=6)
 O_OPEN_LOOKUPFAIL = ob("O6.4c", PF + "procfs_open_lookup_fails", "ProcfsHandle::open on an unmasked handle whose sub-path lookup fails with ANY errno: that error, no retry handle, base descriptor closed", stubs=OPEN_STUBS, covers_may_be_unsat=["opened", "over-mount detected", "retried once"], cost=6)
 O_OPEN_RETRY_OK = ob("O8.2", PF + "procfs_open_masked_retry_ok", "masked handle + ENOENT: exactly one retry handle is created, the lookup is repeated on it with the same arguments, its result is verified against ITS mount and returned; retry handle closed", stubs=OPEN_STUBS, covers_may_be_unsat=["ENOENT reported"], tiers=("thorough",), timeout={"thorough": 5400}, mem_gb=30, cost=8)
-O_OPEN_RETRY_MASKED = ob("O8.3", PF + "procfs_open_masked_retry_still_masked", "masked handle + ENOENT, and the retry handle is masked as well and also answers ENOENT (unprivileged caller on a hidepid/subset host): ENOENT is reported after ONE retry; no second retry handle (bounded handles/descriptors)", stubs=OPEN_STUBS, covers_may_be_unsat=["opened", "over-mount detected"], timeout={"quick": 3600, "thorough": 5400}, mem_gb=30, cost=8)
+O_OPEN_RETRY_MASKED = ob("O8.3", PF + "procfs_open_masked_retry_still_masked", "masked handle + ENOENT, and the retry handle is masked as well and also answers ENOENT (unprivileged caller on a hidepid/subset host): ENOENT is reported after ONE retry; no second retry handle (bounded handles/descriptors) [fully real two-level variant: > 30 GB on this machine]", stubs=OPEN_STUBS, covers_may_be_unsat=["opened", "over-mount detected"], tiers=("thorough",), timeout={"thorough": 7200}, mem_gb=40, cost=8)
+RETRY_STUBS = ["ProcfsHandle::open_base", "verify_same_procfs_mnt", "ProcfsResolver::resolve", "ProcfsHandle::new_unmasked"]
+O_RETRY = [
+    ob("O8.4a", PF + "procfs_retry_masked_again", "retry logic of ProcfsHandle::open (open_base / verify_same_procfs_mnt replaced by contracts): masked handle + ENOENT, the handle from new_unmasked is masked AGAIN and also answers ENOENT: exactly one retry handle, ENOENT reported, all descriptors closed", stubs=RETRY_STUBS, covers_may_be_unsat=["retry succeeded", "no retry"], cost=7),
+    ob("O8.4b", PF + "procfs_retry_unmasked_handle", "... retry on a really unmasked handle, arbitrary outcome there: one retry, returned descriptor verified by the handle that produced it, retry handle closed", stubs=RETRY_STUBS, covers_may_be_unsat=["no retry"], cost=7),
+    ob("O8.4c", PF + "procfs_retry_handle_creation_fails", "... new_unmasked fails: the original ENOENT is reported, nothing leaked", stubs=RETRY_STUBS, covers_may_be_unsat=["retry succeeded", "retry did not help"], cost=6),
+    ob("O8.4d", PF + "procfs_retry_not_for_other_errno", "... lookup fails with EACCES on a masked handle: no retry", stubs=RETRY_STUBS, covers_may_be_unsat=["retry succeeded", "retry did not help"], cost=6),
+]
 O_OPEN_MASKED = ob("O8.1", PF + "procfs_open_masked", "ProcfsHandle::open on a masked (subset/hidepid) handle: ENOENT is retried on at most ONE freshly created handle (which may itself be masked), returned descriptors verified on the handle that produced them, retry handle closed", stubs=OPEN_STUBS, tiers=("thorough",), timeout={"thorough": 3000}, cost=9)
 O_TFF_FAULT = ob("O10.3", PF + "procfs_try_from_fd_fstat_fault", "try_from_fd when the fstat of the candidate handle fails: clean error, no panic, descriptor closed", stubs=["FdExt>::metadata"], covers_may_be_unsat=["masked handle", "unmasked handle"], cost=5)
 
@@ -265,7 +272,7 @@ PROPERTIES = {
         "explanation": "C08: ProcfsHandle::open on a masked handle with an arbitrary resolver/kernel; the stub for new_unmasked counts handles created during one lookup and may return a handle that is itself masked.",
         "outside": "real hidepid/subset mounts (K covers them as 'probe fails'); wall time",
         "assumptions": ["new_unmasked replaced by a counting stub returning an arbitrary (possibly masked) handle"],
-        "obligations": [O_OPEN_RETRY_OK, O_OPEN_RETRY_MASKED, O_OPEN_LOOKUPFAIL, O_OPEN_MASKED, O_OPEN_UNMASKED],
+        "obligations": O_RETRY + [O_OPEN_RETRY_OK, O_OPEN_RETRY_MASKED, O_OPEN_LOOKUPFAIL, O_OPEN_MASKED, O_OPEN_UNMASKED],
     },
     "C07": {
         "bounds": {"quick": {"MAX_CALLS": 16, "MAX_FDS": 8}, "thorough": {"MAX_CALLS": 16, "MAX_FDS": 8}},
